@@ -3,6 +3,7 @@ package main
 import (
 	"bytes"
 	"fmt"
+	"math/rand"
 	"os"
 	"runtime"
 	"sort"
@@ -316,6 +317,192 @@ func checkC05(ctx *Ctx) {
 			}
 		}
 	}
+	// triples: A parked at a keyspace step, B and C started one after the other while it is parked, then A
+	// released; replies and final dataset must equal those of one of the six serial orders (same build)
+	c05Triples(ctx, cmds)
 	_ = model.DiffCanon
 	_ = os.Getpid
 }
+
+type c05OutcomeN struct {
+	Replies []string
+	State   string
+}
+
+func c05SerialN(cmds [][]string, order []int) c05OutcomeN {
+	in := c05Fresh()
+	defer in.Close()
+	out := c05OutcomeN{Replies: make([]string, len(cmds))}
+	for _, i := range order {
+		v, _, crash := in.Do(cmds[i]...)
+		out.Replies[i] = normReply(normOrder(cmds[i], v.String()) + crash)
+	}
+	out.State = canonString(CanonDump(in.S.VerifDump(), in.Clk.NowNs()))
+	return out
+}
+
+func permutations(n int) [][]int {
+	if n == 1 {
+		return [][]int{{0}}
+	}
+	var out [][]int
+	for _, p := range permutations(n - 1) {
+		for pos := 0; pos <= len(p); pos++ {
+			q := append(append(append([]int{}, p[:pos]...), n-1), p[pos:]...)
+			out = append(out, q)
+		}
+	}
+	return out
+}
+
+// c05PausedN parks cmds[0] at its k-th keyspace step, starts the other commands one after the other (each is
+// given time to complete or to be observed waiting), releases cmds[0] and waits for all of them.
+func c05PausedN(cmds [][]string, k int) (out c05OutcomeN, points int, note string) {
+	in := c05Fresh()
+	defer in.Close()
+	var aID atomic.Int64
+	var nA atomic.Int64
+	parked := make(chan struct{})
+	release := make(chan struct{})
+	var once sync.Once
+	var waiting sync.Map // goroutine id -> true once it was seen waiting for the command lock
+	setHook(func(name string, args ...interface{}) {
+		g := goid()
+		if g == aID.Load() && strings.HasPrefix(name, "ks.") {
+			if int(nA.Add(1)) == k {
+				once.Do(func() { close(parked) })
+				<-release
+			}
+			return
+		}
+		if name == "cmd.lock.wait" {
+			waiting.Store(g, true)
+		}
+	})
+	defer setHook(nil)
+	done := make([]chan string, len(cmds))
+	for i := range done {
+		done[i] = make(chan string, 1)
+	}
+	go func() {
+		aID.Store(goid())
+		v, _, crash := in.Do(cmds[0]...)
+		done[0] <- normReply(normOrder(cmds[0], v.String()) + crash)
+	}()
+	out.Replies = make([]string, len(cmds))
+	select {
+	case <-parked:
+	case r := <-done[0]:
+		out.Replies[0] = r
+		return out, int(nA.Load()), "A has fewer yield points"
+	case <-time.After(20 * time.Second):
+		return out, 0, "watchdog: A never parked"
+	}
+	got := make([]bool, len(cmds))
+	for i := 1; i < len(cmds); i++ {
+		i := i
+		var gid atomic.Int64
+		go func() {
+			gid.Store(goid())
+			v, _, crash := in.Do(cmds[i]...)
+			done[i] <- normReply(normOrder(cmds[i], v.String()) + crash)
+		}()
+		// the command completes, or is seen waiting for the command lock (then the next one is started)
+		deadline := time.Now().Add(2 * time.Second)
+		for {
+			select {
+			case r := <-done[i]:
+				out.Replies[i], got[i] = r, true
+			default:
+			}
+			if got[i] {
+				break
+			}
+			if _, w := waiting.Load(gid.Load()); w && gid.Load() != 0 {
+				time.Sleep(200 * time.Microsecond)
+				break
+			}
+			if time.Now().After(deadline) {
+				break
+			}
+			runtime.Gosched()
+		}
+	}
+	close(release)
+	for i := range cmds {
+		if got[i] {
+			continue
+		}
+		select {
+		case out.Replies[i] = <-done[i]:
+		case <-time.After(20 * time.Second):
+			return out, 0, fmt.Sprintf("watchdog: command %d did not finish", i)
+		}
+	}
+	out.State = canonString(CanonDump(in.S.VerifDump(), in.Clk.NowNs()))
+	return out, int(nA.Load()), ""
+}
+
+func c05Triples(ctx *Ctx, cmds [][]string) {
+	n := ctx.N(240, 6000)
+	perms := permutations(3)
+	for t := 0; t < n; t++ {
+		if !ctx.Mine(t) {
+			continue
+		}
+		r := newRand(ctx.Seed*9_000_011 + int64(t))
+		// A, and two commands that each share a key with A
+		var tri [][]string
+		for tries := 0; tries < 200 && tri == nil; tries++ {
+			a, b, c := cmds[r.Intn(len(cmds))], cmds[r.Intn(len(cmds))], cmds[r.Intn(len(cmds))]
+			if overlap(a, b) && overlap(a, c) && !strings.EqualFold(a[0], "FLUSHDB") {
+				tri = [][]string{a, b, c}
+			}
+		}
+		if tri == nil {
+			continue
+		}
+		ctx.SetCurrent(fmt.Sprintf("C05 triple %v", tri))
+		var serial []c05OutcomeN
+		for _, p := range perms {
+			serial = append(serial, c05SerialN(tri, p))
+		}
+		// one park point per triple, chosen by the PRNG among A's steps (found by a first run with k=1)
+		_, points, note := c05PausedN(tri, 1)
+		if strings.HasPrefix(note, "watchdog") {
+			ctx.Inconclusive(note)
+			continue
+		}
+		if points < 1 {
+			continue
+		}
+		k := 1 + r.Intn(points)
+		out, _, note := c05PausedN(tri, k)
+		if strings.HasPrefix(note, "watchdog") {
+			ctx.Inconclusive(note)
+			continue
+		}
+		if note != "" {
+			continue
+		}
+		ctx.Eval(1)
+		ctx.Count("triples", 1)
+		ctx.Class(fmt.Sprintf("triple|%s|%s|%s|k=%d", strings.ToLower(tri[0][0]), strings.ToLower(tri[1][0]), strings.ToLower(tri[2][0]), k))
+		ok := false
+		for _, s := range serial {
+			if s.State == out.State && fmt.Sprint(s.Replies) == fmt.Sprint(out.Replies) {
+				ok = true
+				break
+			}
+		}
+		if !ok {
+			ctx.Violate(Violation{Kind: "not_serializable", Lane: "interleaving-triples",
+				What: fmt.Sprintf("A=%s parked at its keyspace step %d while B=%s and then C=%s were started: replies %v and final dataset %s equal none of the six serial orders (A;B;C gives %v, %s)",
+					Step{Argv: tri[0]}.String(), k, Step{Argv: tri[1]}.String(), Step{Argv: tri[2]}.String(), out.Replies, trunc(out.State, 300), serial[0].Replies, trunc(serial[0].State, 300)),
+				Case: map[string]interface{}{"setup": c05Setup, "A": tri[0], "B": tri[1], "C": tri[2], "park_A_at_step": k},
+				Key:  fmt.Sprintf("c05|triple|%s|%s|%s", strings.ToLower(tri[0][0]), strings.ToLower(tri[1][0]), strings.ToLower(tri[2][0]))})
+		}
+	}
+}
+
+func newRand(seed int64) *rand.Rand { return rand.New(rand.NewSource(seed)) }
